@@ -270,8 +270,8 @@ Print Assumptions discr_out_written_and_returned.
    shape -- except that for reduce k unit axes may have been prepended
    (np.array(..., ndmin=ndim) inside space.element); k = 0 means the final
    store IS NumPy's store, and in every case at most the shape attribute of
-   that one buffer differs (same dtype, same numbers).  k > 0 only arises
-   from the negative-axis defect below. *)
+   that one buffer differs (same dtype, same numbers).  k > 0 needs NumPy
+   to return a lower rank than the kept axes, which reduce never does. *)
 Theorem discr_method_transparent :
   forall (T : Type) (cast : dt -> dt -> T -> T) (V : variant) (NP : @npsem T) (st : @store T) (ds : dspace)
          (nout : nat) (m : meth) (ins : list (@operand T)) (kw : kwargs) (rins : list (@rop T))
@@ -294,47 +294,32 @@ Theorem discr_method_transparent :
              /\ ts_shape (ds_ts rs) = repeat 1%nat k ++ a_shape (rd st_raw id)
              /\ (m <> MReduce -> k = 0%nat) /\ (k = 0%nat -> st' = st_raw)
              /\ (m = MAccumulate -> ds_axes rs = ds_axes ds)
-             /\ (m = MReduce -> ds_axes rs = pick dummy_ax (ds_axes ds) (kept_axes V (ndim ds) (kw_axis kw)))
+             /\ (m = MReduce -> ds_axes rs = pick dummy_ax (ds_axes ds) (kept_axes (ndim ds) (kw_axis kw)))
        end.
 Proof. exact @disc_meth_sound. Qed.
 Print Assumptions discr_method_transparent.
 
-(* Which axes remain after reduce: for every rank and every list of
-   NON-NEGATIVE axes (int or tuple) and for axis absent, the code (either
-   variant) keeps exactly the axes NumPy keeps (those not reduced, in order). *)
+(* Which axes remain after reduce (live since /repo commit ca9a353, which
+   normalises negative axes): for every rank and EVERY axis NumPy accepts --
+   int or tuple, negative ones included, or absent -- the code keeps exactly
+   the axes NumPy keeps (those not reduced, in order). *)
 Theorem discr_reduce_kept_axes_int :
-  forall (V : variant) (nd : nat) (z : Z), (0 <= z)%Z ->
-  kept_axes V nd (AxInt z) = filter (fun i => negb (existsb (Nat.eqb i) [Z.to_nat z])) (seq 0 nd).
-Proof. exact kept_axes_int_nonneg. Qed.
+  forall (nd : nat) (z : Z), (- Z.of_nat nd <= z)%Z ->
+  kept_axes nd (AxInt z) =
+  filter (fun i => negb (existsb (Nat.eqb i)
+            [Z.to_nat (if (z <? 0)%Z then z + Z.of_nat nd else z)%Z])) (seq 0 nd).
+Proof. exact kept_axes_int_all. Qed.
 Theorem discr_reduce_kept_axes_tuple :
-  forall (V : variant) (nd : nat) (l : list Z), Forall (fun z => (0 <= z)%Z) l ->
-  kept_axes V nd (AxTuple l) = filter (fun i => negb (existsb (Nat.eqb i) (map Z.to_nat l))) (seq 0 nd).
-Proof. exact kept_axes_tuple_nonneg. Qed.
-Theorem discr_reduce_kept_axes_absent :
-  forall (V : variant) (nd : nat),
-  kept_axes V nd AxAbsent = filter (fun i => negb (existsb (Nat.eqb i) [0%nat])) (seq 0 nd).
-Proof. exact kept_axes_absent. Qed.
-Print Assumptions discr_reduce_kept_axes_tuple.
-
-(* With the proposed repair (variant v_negaxis) the same holds for EVERY axis
-   NumPy accepts, negative ones included. *)
-Theorem discr_reduce_kept_axes_repaired :
-  forall (V : variant) (nd : nat) (l : list Z),
-  v_negaxis V = true -> Forall (fun z => (- Z.of_nat nd <= z)%Z) l ->
-  kept_axes V nd (AxTuple l) =
+  forall (nd : nat) (l : list Z), Forall (fun z => (- Z.of_nat nd <= z)%Z) l ->
+  kept_axes nd (AxTuple l) =
   filter (fun i => negb (existsb (Nat.eqb i)
             (map (fun z => Z.to_nat (if (z <? 0)%Z then z + Z.of_nat nd else z)%Z) l))) (seq 0 nd).
-Proof. exact kept_axes_tuple_repaired. Qed.
-Print Assumptions discr_reduce_kept_axes_repaired.
-
-(* FULL STATEMENT (FALSE): the same for negative axes.  Refuted by
-   np.add.reduce(y, axis=-1), y in uniform_discr([0,0],[1,3],(2,3)): NumPy returns
-   [3, 12], ODL raises ValueError (finding discr-reduce-negative-axis). *)
-Theorem discr_reduce_negative_axis_refuted :
-  (exists l st', raw_ufunc castQ NPadd st_d MReduce kwm1 [RopBuf 0] [None] = Ok (l, st')
-                 /\ a_shape (rd st' 1) = [2%nat] /\ a_data (rd st' 1) = [3; 12]%Q)
-  /\ disc_ufunc castQ as_found NPadd st_d d23 1 MReduce [OpDisc d23 0] kwm1 [] = Err EValue.
-Proof. exact C17.Refuted.discr_reduce_negative_axis_refuted. Qed.
+Proof. exact kept_axes_tuple_all. Qed.
+Theorem discr_reduce_kept_axes_absent :
+  forall (nd : nat),
+  kept_axes nd AxAbsent = filter (fun i => negb (existsb (Nat.eqb i) [0%nat])) (seq 0 nd).
+Proof. exact kept_axes_absent. Qed.
+Print Assumptions discr_reduce_kept_axes_tuple.
 
 (* ------------------------------------------------------------------------
    Laws of the ufunc methods themselves (exact semantics C17/Arr.v, validated
@@ -480,3 +465,39 @@ Print Assumptions legacy_pspace_agrees_with_numpy_partial.
 Theorem legacy_pspace_agrees_with_numpy_refuted :
   exists t : @ptree Q, legacy1 castQ Fhalf (lop_f LHalf) t <> numpy1 Fhalf (lop_f LHalf) t.
 Proof. exact legacy_vs_numpy_refuted. Qed.
+
+(* ------------------------------------------------------------------------
+   Power-space elements through the NumPy API (ProductSpaceElement.__array__ /
+   __array_wrap__; model [wrap_pspace]/[pspace_np] in C17/Legacy.v, tied by
+   the `pspace` case set).  n parts of shape s, space dtype d, r = what NumPy
+   computes on the arrays. *)
+
+(* A result with the shape of the element (every __call__ without broadcast
+   growth, accumulate) is wrapped into the same space with NumPy's numbers
+   converted to the dtype of the space ... *)
+Theorem pspace_wrap_same_shape :
+  forall (T : Type) (cast : dt -> dt -> T -> T) (n : nat) (s : list nat) (d : dt) (r : @narr T),
+  a_shape r = n :: s ->
+  wrap_pspace cast n s d r = Ok (WElem d (n :: s) (map (conv cast (a_dt r) d) (a_data r))).
+Proof. exact @wrap_same_shape. Qed.
+(* ... hence exactly NumPy's numbers (and dtype) when the result dtype is the
+   space dtype; otherwise they are converted (findings
+   pspace-result-dtype-forced-to-space-dtype,
+   pspace-integer-space-truncates-float-results). *)
+Theorem pspace_wrap_same_shape_and_dtype :
+  forall (T : Type) (cast : dt -> dt -> T -> T) (n : nat) (s : list nat) (r : @narr T),
+  a_shape r = n :: s ->
+  wrap_pspace cast n s (a_dt r) r = Ok (WElem (a_dt r) (n :: s) (a_data r)).
+Proof. exact @wrap_same_shape_dtype. Qed.
+Print Assumptions pspace_wrap_same_shape_and_dtype.
+
+(* FULL STATEMENT (FALSE): "reduce results are wrapped in a space of matching
+   shape".  For EVERY power space with at least two parts, of any part shape,
+   the result of reduce over the component axis (NumPy's default axis 0), which
+   has the shape of one part, is refused with ValueError (finding
+   pspace-reduce-not-wrapped). *)
+Theorem pspace_reduce_never_wrapped_refuted :
+  forall (T : Type) (cast : dt -> dt -> T -> T) (n : nat) (s : list nat) (d : dt) (r : @narr T),
+  (2 <= n)%nat -> s <> [] -> a_shape r = s -> wrap_pspace cast n s d r = Err EValue.
+Proof. exact @wrap_part_shape_fails. Qed.
+Print Assumptions pspace_reduce_never_wrapped_refuted.
